@@ -137,3 +137,28 @@ func NewEpoch(epochNum)
                 ==> bal(store, a) >= old(bal(store, a)) && acct(store, a).Until == old(acct(store, a)).Until
     invariant (forall a Bytes {old(store).opt(akey(a))} :: len(a) == 20 ==> !expired(old(store), a, epochNum)) ==> store == old(store) && notifs == old(notifs)
 @*/
+
+/*@
+module authz
+props C03 C16
+use common core
+dialect neovm
+// Authorisation table (C03): one line per exported method with the witness its documentation requires.
+// Checked by the zero-annotation sweep: on every normal exit that changed state (storage write,
+// notification, state-changing call) the formula holds; `safe` methods never change state.
+// alphabet() = 2/3+1 multisig of the chain committee, cmtaddr() = its majority multisig.
+
+witness Update [C03,C16] : W(cmtaddr())
+// the public transfer needs the holder's witness (or the holder is the calling contract)
+witness Transfer [C03]   : len(from) == 20 && (W(from) || callingScriptHash == from)
+witness TransferX [C03]  : W(alphabet())
+witness Lock [C03]       : W(alphabet())
+witness NewEpoch [C03]   : W(alphabet())
+witness Mint [C03]       : W(alphabet())
+witness Burn [C03]       : W(alphabet())
+safe Symbol [C03]
+safe Decimals [C03]
+safe TotalSupply [C03]
+safe BalanceOf [C03]
+safe Version [C03]
+@*/
